@@ -862,7 +862,7 @@ def check_year_end(ctx, rule='R-YEAREND'):
     the end hour to the begin date has to move a date that ran past the last day of its year into the next year, otherwise the last step
     of a year is stamped with a day that does not exist (02366) and the header dates no longer match the content."""
     ctx.rule(rule, 'writers: a Julian date that received a day carry is normalised for the end of the year before it is stored')
-    need = ('// 1000', '% 1000', '% 4', '% 100', '% 400', '365')
+    need = ('// 1000', '% 1000', '% 4', '% 100', '% 400', '365', '< 70', '2000 +', '1900 +')
     n = 0
 
     def normaliser(m, value, tgt):
@@ -885,7 +885,9 @@ def check_year_end(ctx, rule='R-YEAREND'):
                 if not missing:
                     return True, '%s()' % nm
                 if '1000' in body:
-                    return False, '%s() does not %s' % (nm, 'compare the day with the length (365 / 366) of its year' if set(missing) & set(['% 4', '% 100', '% 400', '365']) else 'split the date at 1000')
+                    return False, '%s() does not %s' % (nm, 'compare the day with the length (365 / 366) of its year' if set(missing) & set(['% 4', '% 100', '% 400', '365']) else
+                                                         ('expand a two-digit year with the pivot of the readers (00-69 -> 20xx, 70-99 -> 19xx): 00 is taken for 1900, which is no leap year'
+                                                          if set(missing) & set(['< 70', '2000 +', '1900 +']) else 'split the date at 1000'))
         return None
     for m in ctx.src.all_modules():
         if not (m.relpath.startswith(CAMX) and m.relpath.endswith('/Write.py')):
@@ -929,6 +931,92 @@ def check_year_end(ctx, rule='R-YEAREND'):
                     ctx.violation(Finding(rule, m.relpath, q, st, 'the day carry is added to the Julian date %s and the result is used as it is: the step that ends at midnight of 31 December is '
                                           'stamped with day 366 (367) of the old year instead of day 1 of the next; the end dates in the headers do not match the content' % tgt))
     ctx.floor('Julian dates receiving a day carry', n, 2)
+
+
+def check_per_step_stamp(ctx, rule='R-PERSTEP'):
+    """met writers: every time stamp written inside the loop over the time steps is that step's stamp.  A value that is derived from
+    the time flags but defined outside the loop is the same for every step (the date of the first step on every record)."""
+    ctx.rule(rule, 'met writers: a value derived from the time flags that is written inside the time loop is defined inside that loop (per step)')
+    n = 0
+    for m in ctx.src.all_modules():
+        if not (m.relpath.startswith(CAMX) and m.relpath.endswith('/Write.py')):
+            continue
+        for q, fn in sorted(m.functions.items()):
+            if not q.startswith('ncf2') or '.' in q:
+                continue
+            top = list(fn.body)
+            # names bound (outside any loop) from the time-flag variable
+            tfl = set()
+            for st in top:
+                if isinstance(st, ast.Assign) and len(st.targets) == 1 and isinstance(st.targets[0], ast.Name):
+                    txt = norm(st.value)
+                    if 'TFLAG' in txt or 'tflag' in txt or any(isinstance(x, ast.Name) and x.id in tfl for x in ast.walk(st.value)):
+                        tfl.add(st.targets[0].id)
+            for lp in top:
+                if not isinstance(lp, ast.For):
+                    continue
+                it = norm(lp.iter)
+                if not ('TFLAG' in it or 'tflag' in it or any(isinstance(x, ast.Name) and x.id in tfl for x in ast.walk(lp.iter))):
+                    continue
+                inside = set(n_.id for st in iter_stmts(lp.body) for t in (st.targets if isinstance(st, ast.Assign) else [])
+                             for n_ in ast.walk(t) if isinstance(n_, ast.Name))
+                inside |= set(n_.id for n_ in ast.walk(lp.target) if isinstance(n_, ast.Name))
+                for st in iter_stmts(lp.body):
+                    if isinstance(st, ast.For):
+                        inside |= set(n_.id for n_ in ast.walk(st.target) if isinstance(n_, ast.Name))
+                emitted = set()
+                for st in iter_stmts(lp.body):
+                    for c in walk_expr(st) if not isinstance(st, (ast.For, ast.If, ast.While, ast.Try, ast.With)) else []:
+                        if isinstance(c, ast.Call) and isinstance(c.func, ast.Attribute) and c.func.attr in ('tofile', 'tobytes') and isinstance(c.func.value, ast.Name):
+                            emitted.add((c.func.value.id, st))
+                        if isinstance(c, ast.Call) and norm(c.func).endswith('.write'):
+                            for x in ast.walk(c):
+                                if isinstance(x, ast.Name) and isinstance(x.ctx, ast.Load):
+                                    emitted.add((x.id, st))
+                where = 'src/PseudoNetCDF/%s %s' % (m.relpath, q)
+                seen = set()
+                for nm, st in sorted(emitted, key=lambda e: (e[1].lineno, e[0])):
+                    if nm in seen:
+                        continue
+                    seen.add(nm)
+                    if nm in tfl and nm not in inside:
+                        n += 1
+                        ctx.violation(Finding(rule, m.relpath, q, st, '%s is computed from the time flags before the loop over the time steps and written inside it: every step is stamped with the '
+                                              'same value (the date of the first step on the records of the following days)' % nm))
+                    elif nm in inside and nm in set(n_.id for n_ in ast.walk(lp.target) if isinstance(n_, ast.Name)) | set(
+                            t.id for s2 in iter_stmts(lp.body) if isinstance(s2, ast.Assign) for t in s2.targets if isinstance(t, ast.Name)):
+                        n += 1
+                        ctx.ok(rule, '%s:%s' % (q, nm), where, 'defined per step')
+    ctx.floor('values written inside the time loops of the met writers', n, 8)
+
+
+def check_header_counts(ctx, rule='R-HDRCOUNT'):
+    """the counts in the grid header (nx, ny, nz, nspec) are the lengths of the dimensions the data loop runs over: a local that feeds
+    such a field has one definition, len(<file>.dimensions[...]) - a second, conditional one makes header and data disagree."""
+    ctx.rule(rule, 'gridded writers: a local that fills a header count (nx, ny, nz, nspec) has a single definition, the length of a dimension')
+    n = 0
+    for rp, q in ((CAMX + 'uamiv/Write.py', 'ncf2uamiv'), (CAMX + 'lateral_boundary/Write.py', 'ncf2lateral_boundary')):
+        m = ctx.src.mod(rp)
+        fn = m.func(q)
+        where = 'src/PseudoNetCDF/%s %s' % (rp, q)
+        feeds = {}
+        for st in iter_stmts(fn.body):
+            if isinstance(st, ast.Assign) and isinstance(st.targets[0], ast.Subscript) and const_str(st.targets[0].slice) in ('nx', 'ny', 'nz', 'nspec') and isinstance(st.value, ast.Name):
+                feeds.setdefault(st.value.id, const_str(st.targets[0].slice))
+        for nm, fld in sorted(feeds.items()):
+            defs = [st for st in iter_stmts(fn.body) if isinstance(st, (ast.Assign, ast.AugAssign)) and any(isinstance(t, ast.Name) and t.id == nm for t in
+                                                                                                             (st.targets if isinstance(st, ast.Assign) else [st.target]))]
+            n += 1
+            good = [d for d in defs if isinstance(d, ast.Assign) and re.search(r"len\(\w+\.dimensions\['[\w-]+'\]\)", norm(d.value))]
+            extra = [d for d in defs if d not in good] + good[1:]
+            if extra:
+                ctx.violation(Finding(rule, rp, q, extra[0], 'the header count %s is filled from %s, which is also set by `%s`: the header then announces another number than the data records that '
+                                      'follow (the reader stops with a partial time step or reads the wrong layers)' % (fld, nm, norm(extra[0])[:40])))
+            elif good:
+                ctx.ok(rule, '%s:%s' % (q, fld), where, '%s = %s' % (nm, norm(good[0].value)))
+            else:
+                ctx.undec(rule, '%s:%s' % (q, fld), where, 'no definition of %s found' % nm)
+    ctx.floor('header counts fed from locals', n, 3)
 
 
 def check_varorder(ctx):
@@ -1292,6 +1380,8 @@ def run(ctx):
     check_one_step(ctx)
     check_dead_carry(ctx)
     check_year_end(ctx)
+    check_per_step_stamp(ctx)
+    check_header_counts(ctx)
     ctx.floor('single elements of flat maps re-interpreted', check_scalar_view(ctx), 1)
     ctx.floor('text attributes sizing a record', check_sized_text(ctx), 1)
     check_landuse(ctx)
